@@ -11,6 +11,13 @@
  * and whether a non-NULL infos.array is left in the unused slots [nr, allocated) — needed to recognise the stale-slot
  * defect class (see below) and to check the array bound.
  *
+ * Disallowed PUs (widened coverage): `initd` loads the topology with HWLOC_TOPOLOGY_FLAG_INCLUDE_DISALLOWED and
+ * `allow <cs|NULL> <flags>` calls hwloc_topology_allow(T, cs, NULL, flags) (4 = CUSTOM with a random subset, 1 = ALL,
+ * others invalid), so that the allowed cpuset is a strict subset of the root cpuset while kinds are registered,
+ * restricted, duplicated and exported/imported (the importing topology gets the same flag).  Every observation
+ * carries allowed=<hex> dis=<flag>.  The kinds must never depend on the allowed cpuset; restrict is refused iff its
+ * set misses the ALLOWED cpuset (lean/Hw/Attr/CpuKindsAllowed.lean).  About half of the generated episodes are of that kind.
+ *
  * Stale-slot defect class (hwloc_internal_cpukinds_restrict memmoves the array without clearing the
  * vacated slot; a later register that creates a kind there starts from the stale infos): such a
  * register is NOT executed (written as `regskip`) unless VERIF_C15_INCLUDE_STALE_SLOT_DEFECT=1.
@@ -40,7 +47,17 @@ static int include_stale;
 static unsigned long st_ops, st_reg, st_regskip, st_reg_einval, st_restrict_ok, st_restrict_einval,
   st_restrict_removed, st_dup, st_xml, st_refresh, st_by_idx, st_by_exdev, st_by_enoent, st_by_einval,
   st_ranked, st_unranked, st_nr[6], st_split, st_merge, st_newtail, st_outside_root, st_stale_seen,
-  st_info_einval, st_info_enoent, st_episodes, st_ireg, st_ireg_class_avoided;
+  st_info_einval, st_info_enoent, st_episodes, st_ireg, st_ireg_class_avoided,
+  /* disallowed-PU coverage */
+  st_dis_episodes, st_allow_ok, st_allow_einval, st_allow_strict, st_reg_over_disallowed, st_restrict_ok_strict,
+  st_restrict_keeps_disallowed_kind_pu, st_restrict_einval_misses_allowed, st_restrict_removed_strict,
+  st_dup_strict, st_xml_strict, st_obs_strict_with_kinds, st_by_disallowed_idx;
+static int DIS;   /* current topology was loaded with INCLUDE_DISALLOWED */
+
+/* allowed cpuset strictly inside the root cpuset? */
+static int strict_allowed(void) {
+  return !hwloc_bitmap_isequal(hwloc_topology_get_allowed_cpuset(T), hwloc_get_root_obj(T)->cpuset);
+}
 static int include_split_forced;
 
 static const char *errname(void) {
@@ -84,6 +101,9 @@ static void show_obs(void) {
   int nr = hwloc_cpukinds_get_nr(T, 0);
   hexset(hwloc_get_root_obj(T)->cpuset, hs);
   fprintf(fout, "nr=%d root=%s", nr, hs);
+  hexset(hwloc_topology_get_allowed_cpuset(T), hs);
+  fprintf(fout, " allowed=%s dis=%d", hs, (hwloc_topology_get_flags(T) & HWLOC_TOPOLOGY_FLAG_INCLUDE_DISALLOWED) ? 1 : 0);
+  if (nr && strict_allowed()) st_obs_strict_with_kinds++;
   hwloc_bitmap_t b = hwloc_bitmap_alloc();
   int ranked = 0;
   for (int i = 0; i < nr; i++) {
@@ -150,11 +170,13 @@ static int would_split_known_forced(hwloc_const_bitmap_t cs, int forced) {
   return r;
 }
 
-static void new_topology(unsigned npu) {
+static void new_topology(unsigned npu, int dis) {
   char desc[32];
   if (T) hwloc_topology_destroy(T);
   NPU = npu;
+  DIS = dis;
   hwloc_topology_init(&T);
+  if (dis) hwloc_topology_set_flags(T, HWLOC_TOPOLOGY_FLAG_INCLUDE_DISALLOWED);
   snprintf(desc, sizeof desc, "pu:%u", npu);
   hwloc_topology_set_synthetic(T, desc);
   hwloc_topology_set_all_types_filter(T, HWLOC_TYPE_FILTER_KEEP_ALL);
@@ -166,6 +188,9 @@ static int do_xml(void) {
   hwloc_topology_t n;
   if (hwloc_topology_export_xmlbuffer(T, &buf, &len, 0) < 0) return -1;
   hwloc_topology_init(&n);
+  /* the importing topology is loaded with the same flags (INCLUDE_DISALLOWED keeps the disallowed PUs and the
+   * exported allowed_cpuset) */
+  hwloc_topology_set_flags(n, hwloc_topology_get_flags(T));
   hwloc_topology_set_all_types_filter(n, HWLOC_TYPE_FILTER_KEEP_ALL);
   if (hwloc_topology_set_xmlbuffer(n, buf, len) < 0) { hwloc_topology_destroy(n); hwloc_free_xmlbuffer(T, buf); return -1; }
   if (hwloc_topology_load(n) < 0) { hwloc_topology_destroy(n); hwloc_free_xmlbuffer(T, buf); return -1; }
@@ -191,14 +216,31 @@ static void exec_line(const char *orig) {
     /* the environment is set once at start from VERIF_C15_STRATEGY; the line only informs the model */
     fprintf(fops, "%s\n", eff); fprintf(fout, "ok\n"); return;
   }
-  if (!strcmp(op, "init")) {
+  if (!strcmp(op, "init") || !strcmp(op, "initd")) {
+    if (nt < 2) { fprintf(fops, "%s\n", eff); fprintf(fout, "bad-op\n"); return; }
     unsigned long r = strtoul(tok[1], NULL, 16); unsigned n = 0;
     while (r) { n++; r >>= 1; }
-    new_topology(n);
+    new_topology(n, !strcmp(op, "initd"));
     st_episodes++;
+    if (DIS) st_dis_episodes++;
     fprintf(fops, "%s\n", eff); show_obs(); return;
   }
-  if (!T) new_topology(12);
+  if (!T) new_topology(12, 0);
+  if (!strcmp(op, "allow")) {
+    /* hwloc_topology_allow(T, cpuset, NULL, flags) */
+    if (nt < 3) { fprintf(fops, "%s\n", eff); fprintf(fout, "bad-op\n"); return; }
+    fprintf(fops, "%s\n", eff);
+    fflush(fops);
+    hwloc_bitmap_t cs = parseset(tok[1]);
+    unsigned long flags = strtoul(tok[2], NULL, 10);
+    errno = 0;
+    int rc = hwloc_topology_allow(T, cs, NULL, flags);
+    if (rc < 0) st_allow_einval++; else { st_allow_ok++; if (strict_allowed()) st_allow_strict++; }
+    fprintf(fout, "rc=%s ", rc < 0 ? errname() : "ok");
+    show_obs();
+    hwloc_bitmap_free(cs);
+    return;
+  }
   if (!strcmp(op, "ireg") || !strcmp(op, "iregskip")) {
     /* hwloc_internal_cpukinds_register(topology, cpuset (ownership passes to hwloc), forced, infos, flags); no ranking */
     if (nt < 4 || !strcmp(tok[1], "NULL")) { fprintf(fops, "%s\n", eff); fprintf(fout, "bad-op\n"); return; }
@@ -258,6 +300,12 @@ static void exec_line(const char *orig) {
     fprintf(fops, "%s\n", eff);
     fflush(fops);
     if (cs && !hwloc_bitmap_isincluded(cs, hwloc_get_root_obj(T)->cpuset)) st_outside_root++;
+    if (cs && !flags) {   /* registration over PUs that are in the topology but disallowed */
+      hwloc_bitmap_t d = hwloc_bitmap_alloc();
+      hwloc_bitmap_andnot(d, hwloc_get_root_obj(T)->cpuset, hwloc_topology_get_allowed_cpuset(T));
+      if (hwloc_bitmap_intersects(d, cs)) st_reg_over_disallowed++;
+      hwloc_bitmap_free(d);
+    }
     errno = 0;
     int rc = hwloc_cpukinds_register(T, cs, forced, (n == 0 && (forced & 1) == 0) ? NULL : &infos, flags);
     st_reg++;
@@ -272,10 +320,29 @@ static void exec_line(const char *orig) {
   if (!strcmp(op, "restrict")) {
     hwloc_bitmap_t s = parseset(tok[1]);
     int before = hwloc_cpukinds_get_nr(T, 0);
+    /* coverage bookkeeping (before the call): is the allowed cpuset a strict subset of the root cpuset, does the set
+     * miss the allowed cpuset although it meets the root cpuset, and does some kind own a PU that stays in the
+     * topology (root & set) without being allowed */
+    int strict = strict_allowed(), misses = 0, keeps = 0;
+    if (s) {
+      hwloc_bitmap_t d = hwloc_bitmap_alloc(), kb = hwloc_bitmap_alloc();
+      misses = hwloc_bitmap_intersects(s, hwloc_get_root_obj(T)->cpuset) && !hwloc_bitmap_intersects(s, hwloc_topology_get_allowed_cpuset(T));
+      hwloc_bitmap_and(d, hwloc_get_root_obj(T)->cpuset, s);
+      hwloc_bitmap_andnot(d, d, hwloc_topology_get_allowed_cpuset(T));
+      for (int i = 0; i < before; i++)
+        if (!hwloc_cpukinds_get_info(T, i, kb, NULL, NULL, 0) && hwloc_bitmap_intersects(kb, d)) keeps = 1;
+      hwloc_bitmap_free(d); hwloc_bitmap_free(kb);
+    }
     errno = 0;
     int rc = hwloc_topology_restrict(T, s, 0);
     if (rc < 0) st_restrict_einval++; else st_restrict_ok++;
     if (hwloc_cpukinds_get_nr(T, 0) < before) st_restrict_removed++;
+    if (rc < 0 && misses) st_restrict_einval_misses_allowed++;
+    if (rc == 0 && strict) {
+      st_restrict_ok_strict++;
+      if (keeps) st_restrict_keeps_disallowed_kind_pu++;
+      if (hwloc_cpukinds_get_nr(T, 0) < before) st_restrict_removed_strict++;
+    }
     fprintf(fout, "rc=%s ", rc < 0 ? errname() : "ok");
     show_obs();
     hwloc_bitmap_free(s);
@@ -284,11 +351,13 @@ static void exec_line(const char *orig) {
     int rc = hwloc_topology_dup(&n, T);
     if (!rc) { hwloc_topology_destroy(T); T = n; }
     st_dup++;
+    if (strict_allowed() && hwloc_cpukinds_get_nr(T, 0)) st_dup_strict++;
     fprintf(fout, "rc=%s ", rc < 0 ? "fail" : "ok");
     show_obs();
   } else if (!strcmp(op, "xml")) {
     int rc = do_xml();
     st_xml++;
+    if (strict_allowed() && hwloc_cpukinds_get_nr(T, 0)) st_xml_strict++;
     fprintf(fout, "rc=%s ", rc < 0 ? "fail" : "ok");
     show_obs();
   } else if (!strcmp(op, "refresh")) {
@@ -301,7 +370,11 @@ static void exec_line(const char *orig) {
     unsigned long flags = strtoul(tok[2], NULL, 10);
     errno = 0;
     int r = hwloc_cpukinds_get_by_cpuset(T, s, flags);
-    if (r >= 0) { fprintf(fout, "r=%d\n", r); st_by_idx++; }
+    if (r >= 0) {
+      fprintf(fout, "r=%d\n", r); st_by_idx++;
+      if (s && !hwloc_bitmap_isincluded(s, hwloc_topology_get_allowed_cpuset(T)) && hwloc_bitmap_isincluded(s, hwloc_get_root_obj(T)->cpuset))
+        st_by_disallowed_idx++;
+    }
     else {
       fprintf(fout, "r=%s\n", errname());
       if (errno == EXDEV) st_by_exdev++; else if (errno == ENOENT) st_by_enoent++; else st_by_einval++;
@@ -408,6 +481,40 @@ static int gen_forced(int profile, int regno) {
   return 2147483647;
 }
 
+static unsigned long rootmask(void) { return hwloc_bitmap_to_ulong(hwloc_get_root_obj(T)->cpuset); }
+static unsigned long allowedmask(void) { return hwloc_bitmap_to_ulong(hwloc_topology_get_allowed_cpuset(T)); }
+
+/* one hwloc_topology_allow call: mostly CUSTOM with a set chosen against the root / allowed cpusets and the current
+ * kinds (random subsets, disallowing part of a kind / a whole kind / everything but one kind, shrinking, growing),
+ * sometimes ALL, an empty / disjoint / NULL set, invalid or unsupported flags.  On a topology without the
+ * INCLUDE_DISALLOWED flag every one of them is refused. */
+static void gen_allow(void) {
+  char line[128];
+  unsigned long root = rootmask(), allowed = allowedmask(), m = 0;
+  int nr = hwloc_cpukinds_get_nr(T, 0);
+  unsigned d = rng_below(100);
+  if (d < 38) m = subset_of(root, 40 + rng_below(50));
+  else if (d < 50 && nr) m = root & ~subset_of(kindset(rng_below(nr)), 60);
+  else if (d < 60 && nr) m = root & ~kindset(rng_below(nr));
+  else if (d < 68 && nr) m = kindset(rng_below(nr));
+  else if (d < 74) m = subset_of(allowed, 70);
+  else if (d < 80) m = allowed | subset_of(root & ~allowed, 50);
+  else if (d < 85) { exec_line("allow NULL 1"); return; }
+  else if (d < 88) m = 0xffff0000UL;
+  else if (d < 90) { exec_line("allow NULL 4"); return; }
+  else if (d < 94) {
+    static const unsigned long badf[] = { 0, 1, 2, 3, 5, 6, 7, 8, 12, 1UL << 20 };
+    sprintf(line, "allow %lx %lu", subset_of(root, 60), badf[rng_below(10)]);
+    exec_line(line); return;
+  }
+  else if (d < 96) { exec_line("allow NULL 2"); return; }
+  else m = rndmask(16, 50);
+  if (!m && !rng_chance(20)) m = root & (~root + 1);
+  if (rng_chance(2)) sprintf(line, "allow 1%016lx 4", m);
+  else sprintf(line, "allow %lx 4", m);
+  exec_line(line);
+}
+
 static void gen_queries(void) {
   char line[256];
   int nr = hwloc_cpukinds_get_nr(T, 0);
@@ -417,6 +524,16 @@ static void gen_queries(void) {
     unsigned c = rng_below(100);
     unsigned long cov = covered();
     unsigned long unc = 0xffffUL & ~cov;
+    unsigned long disallowed = rootmask() & ~allowedmask();
+    if (disallowed && rng_chance(25)) {   /* queries over PUs that are in the topology but disallowed */
+      m = subset_of(disallowed, 50);
+      if (nr && rng_chance(40)) m |= subset_of(kindset(rng_below(nr)), 40);
+      if (nr && rng_chance(30)) m &= kindset(rng_below(nr));
+      if (!m) m = disallowed & (~disallowed + 1);
+      sprintf(line, "by %lx 0", m);
+      exec_line(line);
+      continue;
+    }
     if (c < 30 && nr) { m = subset_of(kindset(rng_below(nr)), 60); }
     else if (c < 40 && nr) m = kindset(rng_below(nr));
     else if (c < 55 && nr) m = subset_of(kindset(rng_below(nr)), 60) | subset_of(kindset(rng_below(nr)), 60);
@@ -440,6 +557,7 @@ static void generate(unsigned long nops) {
   const char *pf = getenv("VERIF_C15_PROFILE");
   const char *strat = getenv("VERIF_C15_STRATEGY");
   int ireg = getenv("VERIF_C15_IREG") && atoi(getenv("VERIF_C15_IREG"));
+  const char *pd = getenv("VERIF_C15_DISALLOWED");    /* force (1) / forbid (0) INCLUDE_DISALLOWED episodes; default: half */
   include_split_forced = getenv("VERIF_C15_INCLUDE_SPLIT_FORCED") && atoi(getenv("VERIF_C15_INCLUDE_SPLIT_FORCED"));
   sprintf(line, "env %s", strat ? strat : "dflt");
   exec_line(line);
@@ -450,9 +568,14 @@ static void generate(unsigned long nops) {
     if (universe < npu) universe = npu;
     unsigned len = 8 + rng_below(40);
     int regno = (int) rng_below(5);
-    sprintf(line, "init %lx", (1UL << npu) - 1);
+    int dis = pd ? atoi(pd) : (int) rng_chance(50);
+    sprintf(line, "%s %lx", dis ? "initd" : "init", (1UL << npu) - 1);
     exec_line(line);
+    /* disallow some PUs before anything is registered (most INCLUDE_DISALLOWED episodes) */
+    if (dis && rng_chance(85)) gen_allow();
     for (unsigned k = 0; k < len; k++) {
+      /* hwloc_topology_allow between the other calls: the kinds must not move */
+      if (rng_chance(dis ? 9 : 1)) { gen_allow(); gen_queries(); continue; }
       unsigned c = rng_below(100);
       if (c < 58) {
         gen_set(set, universe);
@@ -477,7 +600,19 @@ static void generate(unsigned long nops) {
         unsigned long root = hwloc_bitmap_to_ulong(hwloc_get_root_obj(T)->cpuset), m;
         int nr = hwloc_cpukinds_get_nr(T, 0);
         unsigned d = rng_below(100);
-        if (d < 40) m = subset_of(root, 75 + rng_below(20));
+        unsigned long allowed = allowedmask();
+        if (allowed != root && rng_chance(35)) {
+          /* shapes against the allowed cpuset: exactly the allowed PUs, only disallowed PUs (refused although the
+           * set meets the topology), one allowed PU plus most of the disallowed ones, allowed part of a kind */
+          unsigned e = rng_below(100);
+          if (e < 20) m = allowed;
+          else if (e < 40) m = subset_of(root & ~allowed, 70);
+          else if (e < 60) m = (allowed & (~allowed + 1)) | subset_of(root & ~allowed, 85);
+          else if (e < 80) m = subset_of(allowed, 60) | (root & ~allowed);
+          else m = subset_of(allowed, 30) | subset_of(root & ~allowed, 50);
+          if (!m) m = root & ~allowed;
+        }
+        else if (d < 40) m = subset_of(root, 75 + rng_below(20));
         else if (d < 65 && nr) m = root & ~kindset(rng_below(nr));           /* removes exactly one kind */
         else if (d < 75 && nr >= 2) m = root & ~kindset(0) & ~kindset(nr - 1);
         else if (d < 82) m = root;
@@ -499,7 +634,8 @@ static void generate(unsigned long nops) {
 int main(int argc, char **argv) {
   const char *strat = getenv("VERIF_C15_STRATEGY");
   if (strat && strcmp(strat, "dflt")) setenv("HWLOC_CPUKINDS_RANKING", strat, 1); else unsetenv("HWLOC_CPUKINDS_RANKING");
-  unsetenv("HWLOC_XMLFILE"); unsetenv("HWLOC_SYNTHETIC"); unsetenv("HWLOC_COMPONENTS");
+  unsetenv("HWLOC_XMLFILE"); unsetenv("HWLOC_SYNTHETIC"); unsetenv("HWLOC_COMPONENTS"); unsetenv("HWLOC_THISSYSTEM");
+  unsetenv("HWLOC_THISSYSTEM_ALLOWED_RESOURCES");
   include_stale = getenv("VERIF_C15_INCLUDE_STALE_SLOT_DEFECT") && atoi(getenv("VERIF_C15_INCLUDE_STALE_SLOT_DEFECT"));
   if (argc >= 4 && !strcmp(argv[1], "--replay")) {
     FILE *in = fopen(argv[2], "r");
@@ -530,6 +666,9 @@ int main(int argc, char **argv) {
     S(ops); S(episodes); S(reg); S(regskip); S(reg_einval); S(restrict_ok); S(restrict_einval); S(restrict_removed);
     S(dup); S(xml); S(refresh); S(by_idx); S(by_exdev); S(by_enoent); S(by_einval); S(ranked); S(unranked);
     S(split); S(merge); S(newtail); S(outside_root); S(stale_seen); S(info_einval); S(info_enoent); S(ireg); S(ireg_class_avoided);
+    S(dis_episodes); S(allow_ok); S(allow_einval); S(allow_strict); S(reg_over_disallowed); S(restrict_ok_strict);
+    S(restrict_keeps_disallowed_kind_pu); S(restrict_einval_misses_allowed); S(restrict_removed_strict);
+    S(dup_strict); S(xml_strict); S(obs_strict_with_kinds); S(by_disallowed_idx);
     for (int i = 0; i < 6; i++) fprintf(fs, "nr_%d%s %lu\n", i, i == 5 ? "plus" : "", st_nr[i]);
     fclose(fs);
   }
